@@ -41,6 +41,20 @@ fn plans_c01(tier: Tier) -> Vec<Plan> {
     c2.topics = s(&["$x/y", "é/b", "a"]);
     c2.filters = s(&["#", "é/+", "+"]);
     v.push(Plan { cfg: c2.clone(), depth_by_devs: if quick { vec![3, 3] } else { vec![5, 4] } });
+    // variant 3: 1 KB segments, 600-byte payloads, 1-2 segments retained, stalling subscribers
+    for segs in [1usize, 2] {
+        if quick && segs == 2 {
+            continue;
+        }
+        let mut c3 = c.clone();
+        c3.variant = 3;
+        c3.seg_size = 1024;
+        c3.seg_count = segs;
+        c3.pad = 600;
+        c3.topics = s(&["a/b"]);
+        c3.filters = s(&["a/b", "a/+"]);
+        v.push(Plan { cfg: c3, depth_by_devs: if quick { vec![5] } else { vec![7, 5] } });
+    }
     if !quick {
         // configurations: hash order, tiny outgoing batch, v5 subscribers
         let mut d = c.clone();
@@ -84,11 +98,10 @@ fn plans_c06(tier: Tier) -> Vec<Plan> {
     c2.prelude.push(Act::Stall { c: 0 });
     c2.prelude.push(Act::Burst { c: 1, t: 0, qos: 0, n: 250 });
     v.push(Plan { cfg: c2, depth_by_devs: if q { vec![2] } else { vec![3, 3] } });
-    if !q {
-        let mut c3 = c.clone();
-        c3.v5 = vec![true, false, true, false, false];
-        v.push(Plan { cfg: c3, depth_by_devs: vec![4, 4] });
-    }
+    // MQTT 5 requesters (acks and releases may carry properties)
+    let mut c3 = c.clone();
+    c3.v5 = vec![true, false, true, false, false];
+    v.push(Plan { cfg: c3, depth_by_devs: if q { vec![3] } else { vec![4, 4] } });
     v
 }
 
@@ -110,7 +123,8 @@ fn plans_c08(tier: Tier) -> Vec<Plan> {
     if !q {
         let mut c3 = c.clone();
         c3.seg_size = 1024;
-        c3.seg_count = 3;
+        c3.seg_count = 2;
+        c3.pad = 600;
         v.push(Plan { cfg: c3, depth_by_devs: vec![7, 5] });
         let mut c4 = c.clone();
         c4.v5 = vec![true, false, true, false, false];
